@@ -31,11 +31,11 @@ for a in range(10):
     for b in range(10):
         GROUPS.append(Group(name="C04/run.seq2.%s.%s" % (OPS[a], OPS[b]), unity="C04/u_eval.cpp", entry="h_eval_seq", functions=EVF,
                             defines=["NOPS=2", "O0=%d" % a, "O1=%d" % b], checks=ECH[2:], unwind=8, timeout=300,
-                            tier="quick" if (a in REP and b in REP) or a in (1, 2) or b in (1, 2) else "thorough"))
+                            tier="quick" if (a in REP and b in REP and (a + b) % 2 == 0) or (a, b) in ((1, 3), (3, 2), (9, 1)) else "thorough"))
         for c in range(10):
             GROUPS.append(Group(name="C04/run.seq3.%s.%s.%s" % (OPS[a], OPS[b], OPS[c]), unity="C04/u_eval.cpp", entry="h_eval_seq", functions=EVF,
                                 defines=["NOPS=3", "O0=%d" % a, "O1=%d" % b, "O2=%d" % c], checks=ECH[2:], unwind=8, timeout=300,
-                                tier="quick" if (a in REP and b in REP and c in REP and (OCLS[a] > OCLS[b] > OCLS[c] or (a + 3 * b + 5 * c) % 4 == 0)) else "thorough"))
+                                tier="quick" if (a in REP and b in REP and c in REP and (OCLS[a] > OCLS[b] > OCLS[c] or (a + 3 * b + 5 * c) % 11 == 0)) else "thorough"))
 
 EVU = EVF + [("EvalExpression::parse_unary_new", EV, "harness")]
 def shape(n, ops=(), tier="quick"):
@@ -46,12 +46,12 @@ for n in (1, 2, 7, 20, 23, 25, 27):
     GROUPS.append(shape(n))
 for a in range(10):
     for n in (3, 4, 8, 21, 22, 26):
-        GROUPS.append(shape(n, (a,), "quick" if a in REP or a in (1, 2, 4) else "thorough"))
+        GROUPS.append(shape(n, (a,), "quick" if a in (0, 3, 9, 1) else "thorough"))
     for b in range(10):
         for n in (5, 6):
-            GROUPS.append(shape(n, (a, b), "quick" if (a in REP and b in REP and (a + b) % 2 == 0) else "thorough"))
+            GROUPS.append(shape(n, (a, b), "quick" if (a in (0, 3, 9) and b in (0, 3, 9)) else "thorough"))
         if b not in (3,):
-            GROUPS.append(shape(24, (a, b), "quick" if (a in REP and b in REP) else "thorough"))
+            GROUPS.append(shape(24, (a, b), "quick" if (a in (0, 3, 9) and b in (0, 4, 9)) else "thorough"))
 
 for base, fn, n, tr in ((16, "tokens_hex_string_to_int", 6, "quick"), (8, "tokens_octal_string_to_int", 6, "quick"),
                         (2, "tokens_binary_string_to_int", 6, "quick"), (16, "tokens_hex_string_to_int", 10, "thorough")):
